@@ -104,6 +104,11 @@ def pool():
         lambda: einx.add("a b, ", x23, np.float64(1.0)),
         lambda: einx.add("a b, ", x23, np.array(1.0)),
         lambda: einx.add("a b, b", x23, [1.0, 2.0, 3.0]),
+        # tensors passed BY KEYWORD, in different orders: the keyword part of the cache key is an unordered mapping, the compiled function takes positional inputs
+        lambda: einx.where("a, a, a", mask=np.array([True, False, True]), x=np.array([1.0, 2.0, 3.0]), y=np.array([10.0, 20.0, 30.0])),
+        lambda: einx.where("a, a, a", y=np.array([10.0, 20.0, 30.0]), x=np.array([1.0, 2.0, 3.0]), mask=np.array([True, False, True])),
+        lambda: einx.where("a, a, a", np.array([True, False, True]), y=np.array([10.0, 20.0, 30.0]), x=np.array([1.0, 2.0, 3.0])),
+        lambda: einx.where("a, a, a", x=np.array([1.0, 2.0, 3.0]), mask=np.array([True, False, True]), y=np.array([10.0, 20.0, 30.0]), graph=True),
         lambda: einx.sum("a [b]", x23),
         lambda: einx.sum("a [b]", x23, graph=True),
         lambda: einx.sum("a [b]", A(2, 4)),
